@@ -641,6 +641,95 @@ Section Grad.
   Qed.
 End Grad.
 
+(* ---- merged estimation (gradient.merge_realizations): one stacked system ------------------------------ *)
+Lemma mr_nil2 x fs pfs w : merged_rows x fs [] pfs w = [].
+Proof. destruct fs; reflexivity. Qed.
+Lemma mr_nil3 x fs pXs w : merged_rows x fs pXs [] w = [].
+Proof. destruct fs, pXs; reflexivity. Qed.
+Lemma mr_nil4 x fs pXs pfs : merged_rows x fs pXs pfs [] = [].
+Proof. destruct fs, pXs, pfs; reflexivity. Qed.
+
+(* the rows of a realization whose weight vanishes do not occur: deleting those realizations changes nothing *)
+Lemma merged_rows_gather failed x fs pXs pfs w : zeros_at failed w ->
+  merged_rows x fs pXs pfs w =
+  merged_rows x (gather (keep_of failed) fs) (gather (keep_of failed) pXs) (gather (keep_of failed) pfs)
+              (gather (keep_of failed) w).
+Proof.
+  intros H; revert fs pXs pfs; induction H as [|b v failed w Hb _ IH]; intros fs pXs pfs.
+  - cbn [keep_of map gather]. rewrite !mr_nil4. reflexivity.
+  - destruct fs as [|f fs]; [rewrite gather_nil; reflexivity|].
+    destruct pXs as [|pX pXs]; [rewrite (gather_nil (keep_of (b :: failed))), !mr_nil2; reflexivity|].
+    destruct pfs as [|pf pfs]; [rewrite (gather_nil (keep_of (b :: failed))), !mr_nil3; reflexivity|].
+    rewrite keep_of_cons. destruct b; cbn [negb gather merged_rows].
+    + rewrite (Qeqb_0_true _ (Hb eq_refl)). cbn [app]. apply IH.
+    + rewrite IH. reflexivity.
+Qed.
+
+Lemma mrow_map_proper (v v' : Q) (l : list (vec * Q)) : v == v' ->
+  Forall2 mrow_eq (map (fun ab : vec * Q => (v, fst ab, snd ab)) l) (map (fun ab : vec * Q => (v', fst ab, snd ab)) l).
+Proof.
+  intros Hv. induction l as [|ab l IH]; cbn [map]; constructor; [|exact IH].
+  unfold mrow_eq. cbn [fst snd]. split; [exact Hv | split; reflexivity].
+Qed.
+
+Lemma merged_rows_proper x fs pXs pfs w w' : veq w w' ->
+  Forall2 mrow_eq (merged_rows x fs pXs pfs w) (merged_rows x fs pXs pfs w').
+Proof.
+  intros H; revert fs pXs pfs; induction H as [|v v' w w' Hv _ IH]; intros fs pXs pfs.
+  - rewrite !mr_nil4. constructor.
+  - destruct fs as [|f fs], pXs as [|pX pXs], pfs as [|pf pfs]; try constructor.
+    cbn [merged_rows]. rewrite (Qeqb_proper _ _ Hv). apply Forall2_app; [|apply IH].
+    destruct (Qeqb v' 0); [constructor | apply mrow_map_proper; exact Hv].
+Qed.
+
+Lemma merged_rows_reduced x fs pXs pfs w :
+  merged_rows x fs (map2 reduce_pX pXs pfs) (map reduce_pf pfs) w = merged_rows x fs pXs pfs w.
+Proof.
+  revert pXs pfs w; induction fs as [|f fs IH]; intros pXs pfs w; [reflexivity|].
+  destruct pXs as [|pX pXs]; [reflexivity|].
+  destruct pfs as [|pf pfs]; [reflexivity|].
+  destruct w as [|v w]; [reflexivity|].
+  cbn [map2 map merged_rows]. rewrite realization_system_reduced, IH. reflexivity.
+Qed.
+
+(* the rows that enter the merged solve: exactly those of realizations with a non-zero weight and of perturbations
+   whose function difference is defined *)
+Lemma merged_rows_In x : forall fs pXs pfs w wr dx d,
+  In (wr, dx, d) (merged_rows x fs pXs pfs w) ->
+  exists r f pX pf, nth_error fs r = Some f /\ nth_error pXs r = Some pX /\ nth_error pfs r = Some pf /\
+                    nth_error w r = Some wr /\ ~ wr == 0 /\
+                    In (dx, d) (combine (fst (realization_system x f pX pf)) (snd (realization_system x f pX pf))).
+Proof.
+  induction fs as [|f fs IH]; intros pXs pfs w wr dx d Hin; [contradiction|].
+  destruct pXs as [|pX pXs]; [contradiction|]. destruct pfs as [|pf pfs]; [contradiction|].
+  destruct w as [|v w]; [contradiction|].
+  cbn [merged_rows] in Hin. apply in_app_or in Hin as [Hin|Hin].
+  - destruct (Qeqb v 0) eqn:E; [contradiction|]. apply in_map_iff in Hin as [[a b] [Heq Hab]].
+    cbn [fst snd] in Heq. injection Heq as -> -> ->.
+    exists 0%nat, f, pX, pf. cbn [nth_error]. repeat split; try reflexivity; [apply Qeqb_neq; exact E | exact Hab].
+  - destruct (IH _ _ _ _ _ _ Hin) as (r & f' & pX' & pf' & H1 & H2 & H3 & H4 & H5 & H6).
+    exists (S r), f', pX', pf'. cbn [nth_error]. repeat split; assumption.
+Qed.
+
+Theorem merged_removal (msolve : list mrow -> vec) :
+  (forall a b, Forall2 mrow_eq a b -> veq (msolve a) (msolve b)) ->
+  forall x fs pXs pfs wrow failed, length wrow = length failed ->
+  let keep := keep_of failed in
+  gres_eq (merged_gradient_of msolve x fs pXs pfs wrow failed)
+          (merged_gradient_of msolve x (gather keep fs)
+                              (map2 reduce_pX (gather keep pXs) (gather keep pfs)) (map reduce_pf (gather keep pfs))
+                              (gather keep wrow) (repeat false (count_ok failed))).
+Proof.
+  intros Hm x fs pXs pfs wrow failed HL keep. unfold merged_gradient_of.
+  pose proof (normalized_removal failed wrow HL) as H. fold keep in H.
+  destruct (normalize (zero_failed failed wrow)) as [w|],
+           (normalize (zero_failed (repeat false (count_ok failed)) (gather keep wrow))) as [w'|];
+    try contradiction; [|exact I].
+  destruct H as [Hz Hv]. cbn [gres_eq]. apply Hm.
+  rewrite merged_rows_reduced, (merged_rows_gather failed x fs pXs pfs w Hz). fold keep.
+  apply merged_rows_proper. exact Hv.
+Qed.
+
 
 (* ================================================================================================ *)
 (* 9. factorisation of estimate_all, weighted objective                                               *)
